@@ -208,7 +208,7 @@ def run(case, j):
         j.tag("history:refit-after-set_params")
     else:
         est = forms.configure(Ridge2FoldCV, params, case.get("how", "ctor"), j=j)
-    Xin = X.astype(case["xint"]) if case.get("xint") else X
+    Xin = forms.as_integer(X, case["xint"]) if case.get("xint") else X
     Xin, Yin = forms.present(Xin, case.get("xform", "C")), forms.present(Yin, case.get("yform", "C"))
     if case.get("xint"):
         j.note("integer_typed_features")
